@@ -306,6 +306,10 @@ def obligations(tier):
 
     obs.append(Obligation("C02/V8/narrow_columns", "V8", "mutate over Int8 / Int32 / UInt16 / Float32 columns (with columns and Python literals) computes the values it computes on the widened data (native Polars)", c03.narrow_types_run,
                           functions=[H.fn_info(H.polars_backend.compile_col_expr)], bounded="every element-wise operator x signatures of arity <= 2 with a narrow column on one 3-row frame"))
+    from . import c16
+
+    obs.append(Obligation("C02/V9/verbs_across_subquery", "V9", "rename / mutate / filter after a sliced alias() (SQL subquery) through table-bound references: same table as on Polars (= C16/X9)", c16._conc("pipelines with alias() give the same table on SQLite as on Polars", c16.x9_check),
+                          functions=[H.fn_info(pdt._internal.pipe.pipeable.check_subquery)], bounded="15 pipelines x 2 backends on one 6-row table"))
     obs.append(Obligation("C02/V7/compositions", "V7", "pre-composed and reused verb compositions against a row-by-row oracle (native, both engines)", v7_run,
                           functions=[H.fn_info(pdt._internal.pipe.pipeable.Pipeable.__rshift__), H.fn_info(pdt._internal.pipe.pipeable.Pipeable.__call__)], bounded="10 compositions of 4 verbs x 2 backends on one 5-row table"))
     obs.append(Obligation("C02/V1d/defaults", "V1", "documented default arguments (offset=0, add=False, distinct=False, validate='m:m', fresh uuids after alias, collect keeps references, strict casts, null fill)", v1d_run,
